@@ -585,3 +585,86 @@ macro_rules! record_unknown {
 }
 record_unknown!(c10_record_unknown_00, 0x00);
 record_unknown!(c10_record_unknown_19, 0x19);
+
+// ---- dispatch over all 256 handshake types with the six body parsers replaced by markers (rule R3)
+static mut D_MARK: u8 = 0xff;
+static mut D_OFF_OK: bool = false;
+static mut D_LEN: usize = 0;
+static mut D_ARG: usize = usize::MAX;
+static mut D_CALLS: u32 = 0;
+static mut D_BASE: usize = 0;
+
+fn dmark<'a>(id: u8, i: &'a [u8], arg: usize) -> IResult<&'a [u8], DTLSMessageHandshakeBody<'a>> {
+    unsafe {
+        D_MARK = id;
+        D_OFF_OK = (i.as_ptr() as usize) == D_BASE + 12;
+        D_LEN = i.len();
+        D_ARG = arg;
+        D_CALLS += 1;
+    }
+    Ok((i, DTLSMessageHandshakeBody::ServerDone(i)))
+}
+fn d_ch(i: &[u8]) -> IResult<&[u8], DTLSMessageHandshakeBody> { dmark(1, i, usize::MAX) }
+fn d_hvr(i: &[u8]) -> IResult<&[u8], DTLSMessageHandshakeBody> { dmark(3, i, usize::MAX) }
+fn d_sh(i: &[u8]) -> IResult<&[u8], DTLSMessageHandshakeBody> { dmark(2, i, usize::MAX) }
+fn d_done(i: &[u8], l: usize) -> IResult<&[u8], DTLSMessageHandshakeBody> { dmark(14, i, l) }
+fn d_cke(i: &[u8], l: usize) -> IResult<&[u8], DTLSMessageHandshakeBody> { dmark(16, i, l) }
+fn d_cert(i: &[u8]) -> IResult<&[u8], DTLSMessageHandshakeBody> { dmark(11, i, usize::MAX) }
+
+#[kani::proof]
+#[kani::unwind(6)]
+#[kani::stub(tp::dtls::parse_dtls_client_hello, d_ch)]
+#[kani::stub(tp::dtls::parse_dtls_hello_verify_request, d_hvr)]
+#[kani::stub(tp::dtls::parse_dtls_handshake_msg_server_hello_tlsv12, d_sh)]
+#[kani::stub(tp::dtls::parse_dtls_handshake_msg_serverdone, d_done)]
+#[kani::stub(tp::dtls::parse_dtls_handshake_msg_clientkeyexchange, d_cke)]
+#[kani::stub(tp::dtls::parse_dtls_handshake_msg_certificate, d_cert)]
+fn c10_hs_dispatch_wiring() {
+    let buf: [u8; 16] = kani::any();
+    let n: usize = kani::any();
+    kani::assume(n <= 16);
+    let b = &buf[..n];
+    unsafe {
+        D_BASE = b.as_ptr() as usize;
+        D_CALLS = 0;
+        D_MARK = 0xff;
+    }
+    let r = ManuallyDrop::new(tp::parse_dtls_message_handshake(b));
+    let calls = unsafe { D_CALLS };
+    if n < 12 || (be24(b, 9) as usize) > n - 12 {
+        vassert!(class(&r) == Class::Incomplete, "C10.dispatch.truncated.incomplete");
+        vassert!(calls == 0, "C10.dispatch.truncated.no_body_parser_run");
+        return;
+    }
+    let h = ref_hs_hdr(b);
+    let fl = h.flen as usize;
+    let is_frag = h.off > 0 || h.flen < h.length;
+    if is_frag {
+        vassert!(calls == 0, "C10.dispatch.fragment.no_body_parser_run");
+        vassert!(matches!(&*r, Ok((rem, m)) if m.is_fragment() && is_sub(b, rem, 12 + fl, n - 12 - fl)), "C10.dispatch.fragment_returned_opaque");
+        vcover!(h.off > 0 && h.flen >= h.length, "C10.dispatch.cover.last_fragment_by_offset");
+        return;
+    }
+    let supported = matches!(h.ty, 1 | 2 | 3 | 11 | 14 | 16);
+    if !supported {
+        vassert!(class(&r) == Class::Error, "C10.dispatch.unsupported_type.rejected");
+        vassert!(calls == 0, "C10.dispatch.unsupported_type.no_body_parser_run");
+        vcover!(h.ty == 4, "C10.dispatch.cover.new_session_ticket_unsupported");
+        return;
+    }
+    vassert!(calls == 1, "C10.dispatch.exactly_one_body_parser_run");
+    unsafe {
+        vassert!(D_MARK == h.ty, "C10.dispatch.body_parser_selected_by_handshake_type");
+        vassert!(D_OFF_OK && D_LEN == fl, "C10.dispatch.body_isolated_to_fragment_length");
+        if h.ty == 14 || h.ty == 16 {
+            vassert!(D_ARG == h.length as usize, "C10.dispatch.declared_length_passed_to_body_parser");
+        }
+    }
+    if let Ok((rem, DTLSMessage::Handshake(hm))) = &*r {
+        check_hs_header(hm, &h);
+        vassert!(is_sub(b, rem, 12 + fl, n - 12 - fl), "C10.dispatch.remainder_after_fragment_length");
+        vcover!(fl > 0 && rem.len() > 0, "C10.dispatch.cover.body_and_rest");
+    } else {
+        vassert!(false, "C10.dispatch.result_wrapped");
+    }
+}
